@@ -14,7 +14,8 @@ LEVEL_TEXT = ("Every generated script of the pool (column, constraint, alter, ty
               "dict), every table entry must carry the documented keys with the documented types, every column entry the 8 documented keys "
               "with boolean unique/nullable, primary_key must list that table's columns (generated inputs), json.dumps must succeed and "
               "run(json_dump=True) must equal it."
-              " The pool includes well-formed ALTER histories of length 2-3 (ADD / RENAME / DROP / FOREIGN KEY over renamed and added columns) and every default form on every type form.")
+              " The pool includes well-formed ALTER histories of length 2-3 (ADD / RENAME / DROP / FOREIGN KEY over renamed and added columns) and every default form on every type form."
+              " json_dump is also requested on ONE object before and after a plain call.")
 LEVEL_NOTE = "For corpus DDL whose own PRIMARY KEY names a column that is not declared, only the type of primary_key is checked."
 RULE = ("case = (input, normalize_names, group_by_type) evaluated under all 15 modes with and without json_dump; non-trivial = result "
         "contains >= 1 table; distinct by (input, flags)")
